@@ -199,8 +199,43 @@ func genTeardown(repo string, fs facts) (string, error) {
 		strings.Index(p.src(epDial), "s.conns.add(conn)") < strings.LastIndex(p.src(epDial), "conn = nil")
 	acceptSelectsDone := selectWith(p, epAccept, "<-p.incoming", "<-p.serveDone", "<-p.closed")
 	sendAcceptBounded := selectWith(p, epSend, "<-timer.C", "p.incoming <- conn", "<-p.closed")
-	closeBounded := selectWith(p, epClose, "<-timer.C", "<-p.serveDone") &&
-		strings.Contains(p.src(epClose), "close(p.closed)") && strings.Contains(p.src(epClose), "p.conn.Close()")
+	// Close: inside the once-func, a select on the timer and serveDone none of whose arms returns, followed
+	// (at the same nesting level) by close(p.closed) and p.conn.Close()
+	closeBounded := false
+	ast.Inspect(epClose, func(n ast.Node) bool {
+		fl, ok := n.(*ast.FuncLit)
+		if !ok {
+			return true
+		}
+		selAt, closedAt, connAt, retInSel := -1, -1, -1, false
+		for i, st := range fl.Body.List {
+			switch x := st.(type) {
+			case *ast.SelectStmt:
+				if selectHas(p, x, "<-timer.C") && selectHas(p, x, "<-p.serveDone") {
+					selAt = i
+					ast.Inspect(x, func(m ast.Node) bool {
+						if _, ok := m.(*ast.ReturnStmt); ok {
+							retInSel = true
+						}
+						return true
+					})
+				}
+			case *ast.ExprStmt:
+				if strings.ReplaceAll(p.src(x), " ", "") == "close(p.closed)" {
+					closedAt = i
+				}
+			}
+			if strings.Contains(p.src(st), "p.conn.Close()") {
+				if _, isIf := st.(*ast.IfStmt); !isIf {
+					connAt = i
+				}
+			}
+		}
+		if selAt >= 0 && !retInSel && closedAt > selAt && connAt > selAt {
+			closeBounded = true
+		}
+		return true
+	})
 	serveSignalsDone := strings.Contains(p.src(epRun), "p.server.serve()") && strings.Contains(p.src(epRun), "close(p.serveDone)")
 
 	var b strings.Builder
